@@ -22,5 +22,95 @@ GROUP = {
             r.format == (if other.format is Some { other.format } else { self.format }),
             r.rewrite@ == self.rewrite@ + other.rewrite@,                                                      // @merge.rewrite_rules_concatenated_in_order
 """),
+        # ---- ConfigSet::select_impl: which documents apply to a file, in which order, merged how
+        U("ConfigSet(type)", CFG, [r"pub struct ConfigSet\b"], pub_fields=True),
+        ("text", "select_stub.rs"),
+        U("ConfigSet::select_impl::has_matches", CFG, [r"impl ConfigSet\b", r"fn select_impl\b", r"fn has_matches<'a>"], fn="has_matches",
+          rewrites=[RET(), ("R1-keep-lifetime", "fn has_matches(", "fn has_matches<'a>(", 1), ("R1-keep-lifetime", "entry: &ConfigFragment,", "entry: &'a ConfigFragment,", 1),
+                    ("R1-keep-lifetime", "Option<(usize, &ConfigFragment)>", "Option<(usize, &'a ConfigFragment)>", 1),
+                    ("R24-str-model", "Some(ep) if fp.contains(ep) =>", "Some(ep) if str_contains(fp, ep) =>", 1),
+                    ("R24-str-model", "Some((entry.path.len(), entry))", "Some((string_len(&entry.path), entry))", 1)],
+          contract="""
+    ensures
+        // a document applies iff its `path` occurs in the file's path; it is kept with the length of its `path`
+        r is Some <==> doc_matches(*entry, fp@),   // @select.document_applies_iff_its_path_occurs_in_the_file_path
+        r matches Some(x) ==> x.0 == byte_len(entry.path@) && *x.1 == *entry,
+"""),
+        U("ConfigSet::select_impl", CFG, [r"impl ConfigSet\b", r"fn select_impl\b"], fn="select_impl", wrap=("impl ConfigSet {", "}"),
+          rewrites=[RET(),
+                    ("R17-hoist-nested-fn", "re:fn has_matches\\([^{]*\\{(?:[^{}]|\\{(?:[^{}]|\\{[^{}]*\\})*\\})*\\}\\s*", "", 1),
+                    ("R35-filter-map-collect", "re:let mut matched: Vec<\\(usize, &ConfigFragment\\)> = self\\s*\\.entries\\s*\\.iter\\(\\)\\s*\\.filter_map\\(\\|x\\| has_matches\\(x, fp\\)\\)\\s*\\.collect\\(\\);",
+                     "let mut matched: Vec<(usize, &ConfigFragment)> = Vec::new(); let ghost mut pos__: Seq<int> = Seq::empty();\n        for i__ in 0..self.entries.len() { let x = &self.entries[i__]; match has_matches(x, fp) { Some(y__) => { matched.push(y__); proof { pos__ = pos__.push(i__ as int); } } None => {} } }", 1),
+                    ("R24-sort-by-key", "matched.sort_by_key(|x| x.0);", "let ghost pos0__ = pos__; let ghost matched0__ = matched@; let perm__ = sort_by_key_stable(&mut matched); proof { pos__ = Seq::new(pos0__.len(), |k: int| pos0__[perm__@[k]]); }", 1),
+                    ("R36-fold", "re:matched\\s*\\.into_iter\\(\\)\\s*\\.fold\\(None, \\|res, item\\| match res \\{\\s*None => Some\\(item\\.1\\.clone\\(\\)\\),\\s*Some\\(prev\\) => Some\\(prev\\.merge\\(item\\.1\\.clone\\(\\)\\)\\),\\s*\\}\\)\\s*\\.map\\(\\|x\\| x\\.try_into\\(\\)\\)",
+                     "{ let mut res: Option<ConfigFragment> = None;\n          for k__ in 0..matched.len() { let item = matched[k__]; res = match res { None => Some(item.1.clone()), Some(prev) => Some(prev.merge(item.1.clone())) }; }\n          match res { Some(x) => Some(config_entry_try_from(x)), None => None } }", 1)],
+          contract="""
+        ensures
+            p.text() is None ==> r is None,
+            // C17: the configuration in force is the merge of every document whose `path` occurs in the file's path, shortest `path` first
+            //      (same length: document order); no document applies = no configuration
+            p.text() matches Some(fp) ==> exists|s: Seq<(usize, &ConfigFragment)>, pos: Seq<int>, m: Option<ConfigFragment>|
+                #[trigger] is_selection(s, self.entries@, fp, pos) && #[trigger] opt_fv(m) == merged(s, s.len() as int)
+                && r == (match m { Some(x) => Some(entry_of(x)), None => None::<Result<ConfigEntry, ImportError>> }),   // @select.merge_of_the_applying_documents_shortest_path_first
+""",
+          loops={0: """
+            invariant
+                pos__.len() == matched@.len(),
+                forall|k: int| 0 <= k < matched@.len() ==> 0 <= #[trigger] pos__[k] < i__ && *matched@[k].1 == self.entries@[pos__[k]]
+                    && matched@[k].0 == byte_len(self.entries@[pos__[k]].path@) && doc_matches(self.entries@[pos__[k]], fp@),
+                forall|i: int| 0 <= i < i__ && doc_matches(self.entries@[i], fp@) ==> exists|k: int| 0 <= k < matched@.len() && #[trigger] pos__[k] == i,
+                forall|a: int, b: int| 0 <= a < b < matched@.len() ==> pos__[a] < pos__[b],
+""", 1: """
+            invariant opt_fv(res) == merged(matched@, k__ as int), k__ > 0 ==> res is Some,
+"""},
+          loop_body_end={0: """            proof {
+                assert forall|i: int| 0 <= i < i__ + 1 && doc_matches(self.entries@[i], fp@) implies exists|k: int| 0 <= k < matched@.len() && #[trigger] pos__[k] == i by {
+                    if i < i__ {
+                        let k0 = choose|k: int| 0 <= k < pos_before__.len() && #[trigger] pos_before__[k] == i;
+                        assert(pos__[k0] == i);
+                    } else {
+                        assert(pos__[matched@.len() - 1] == i);
+                    }
+                }
+            }""",
+                         1: """            proof {
+                if k__ > 0 {
+                    let prev = res_before__->Some_0;
+                    assert(fv(res->Some_0).rewrite =~= merge_v(fv(prev), fv(*matched@[k__ as int].1)).rewrite);
+                    assert(fv(res->Some_0) == merge_v(fv(prev), fv(*matched@[k__ as int].1)));
+                }
+            }"""},
+          loop_body_start={0: "            let ghost pos_before__ = pos__;",
+                           1: "            let ghost res_before__ = res;"},
+          inserts=[("before", "match res { Some(x) => Some(config_entry_try_from(x)), None => None }", 0, """proof {
+              assert forall|k: int| 0 <= k < matched@.len() implies 0 <= #[trigger] pos__[k] < self.entries@.len() && *matched@[k].1 == self.entries@[pos__[k]]
+                    && matched@[k].0 == byte_len(self.entries@[pos__[k]].path@) && doc_matches(self.entries@[pos__[k]], fp@) by {
+                  let j = perm__@[k];
+                  assert(matched@[k] == matched0__[j]);
+                  assert(pos__[k] == pos0__[j]);
+              }
+              assert forall|i: int, j: int| 0 <= i < j < matched@.len() implies (matched@[i].0 < matched@[j].0 || (matched@[i].0 == matched@[j].0 && pos__[i] < pos__[j])) by {
+                  assert(pos__[i] == pos0__[perm__@[i]] && pos__[j] == pos0__[perm__@[j]]);
+                  if perm__@[i] < perm__@[j] { assert(pos0__[perm__@[i]] < pos0__[perm__@[j]]); }
+              }
+              assert(pos__.len() == matched@.len());
+              assert(forall|i: int| 0 <= i < self.entries@.len() && doc_matches(self.entries@[i], fp@) ==> exists|k: int| 0 <= k < matched@.len() && #[trigger] pos__[k] == i) by {
+                  assert forall|i: int| 0 <= i < self.entries@.len() && doc_matches(self.entries@[i], fp@) implies exists|k: int| 0 <= k < matched@.len() && #[trigger] pos__[k] == i by {
+                      let k0 = choose|k: int| 0 <= k < pos0__.len() && #[trigger] pos0__[k] == i;
+                      assert(perm_hits(perm__@, k0));
+                      let k = choose|k: int| 0 <= k < perm__@.len() && #[trigger] perm__@[k] == k0;
+                      assert(pos__[k] == i);
+                  }
+              }
+              assert(is_selection(matched@, self.entries@, fp@, pos__)) by {
+                  assert forall|i: int| 0 <= i < self.entries@.len() && doc_matches(self.entries@[i], fp@) implies exists|k: int| 0 <= k < matched@.len() && #[trigger] pos__[k] == i by {
+                      let k0 = choose|k: int| 0 <= k < pos0__.len() && #[trigger] pos0__[k] == i;
+                      assert(perm_hits(perm__@, k0));
+                      let k = choose|k: int| 0 <= k < perm__@.len() && #[trigger] perm__@[k] == k0;
+                      assert(pos__[k] == i);
+                  }
+              }
+          }
+          """)]),
     ],
 }
